@@ -172,9 +172,9 @@ Section Tree.
     same_off G a b -> (forall x, In x (vars c) -> ~ In x G) -> cond_t F a c = cond_t F b c.
   Proof. intros H Hv. apply cond_t_frame. intros x Hx. apply (same_off_sym_eq G); auto. Qed.
 
-  Lemma bound_frame_srel G c a b :
-    same_off G a b -> (forall x, In x (vars c) -> ~ In x G) -> bound_t F a c = bound_t F b c.
-  Proof. intros H Hv. apply bound_t_frame. intros x Hx. apply (same_off_sym_eq G); auto. Qed.
+  Lemma bounds_frame_srel G lo hi a b :
+    same_off G a b -> (forall x, In x (vars lo ++ vars hi) -> ~ In x G) -> bounds_t F a lo hi = bounds_t F b lo hi.
+  Proof. intros H Hv. apply bounds_t_frame. intros x Hx. apply (same_off_sym_eq G); auto. Qed.
 
   Lemma iter_sim G x b b' n : forall i S S',
     tsim G b b' -> srel G S S' -> srel G (iter_t n i x (run_tree b) S) (iter_t n i x (run_tree b') S').
@@ -305,10 +305,8 @@ Section Tree.
       destruct S as [a ev lg|a ev lg w|u]; [| |exact Logic.I].
       + destruct S' as [c ev' lg'|?|?]; cbn in HS; try contradiction. destruct HS as (A & -> & P).
         cbn [TransformSem.run_tree].
-        rewrite <- (bound_frame_srel G lo a c A) by (intros z Hz; apply Hd; right; rewrite !in_app_iff; tauto).
-        destruct (bound_t F a lo) as [l1 [z1|u]]; [|exact Logic.I].
-        rewrite <- (bound_frame_srel G hi a c A) by (intros z Hz; apply Hd; right; rewrite !in_app_iff; tauto).
-        destruct (bound_t F a hi) as [l2 [z2|u]]; [|exact Logic.I].
+        rewrite <- (bounds_frame_srel G lo hi a c A) by (intros z Hz; apply Hd; right; rewrite !in_app_iff in *; tauto).
+        destruct (bounds_t F a lo hi) as [l1 [[z1 z2]|u]]; [|exact Logic.I].
         apply iter_sim.
         * apply Hs; [intros z Hz; apply Hv; right; rewrite !in_app_iff; tauto|exact HN|
                      intros z Hz; apply Hd; right; rewrite !in_app_iff; tauto].
